@@ -578,7 +578,7 @@ def _x_flag_readers(ctx):
     return out
 
 
-@rule("X-STRIP-GATE", ["C14", "C13", "C03", "C07"], floor=5)
+@rule("X-STRIP-GATE", ["C14", "C13", "C03", "C07", "C16"], floor=5)
 def x_strip_gate(ctx):
     """The stripping loop runs iff flag x is set and flag q is not, before the parser; its output replaces
     self.pattern together with self.len and is what ReProgram receives."""
